@@ -18,6 +18,7 @@ DOC = {
         'C19.R3': 'release: increment by 1 under the lock; notify_one/notify_all post-dominates the increment',
         'C19.R4': 'both guard Drop impls call release on every path; access/access_owned call acquire before building the guard',
         'C19.R5': 'only Semaphore\'s own methods read or write the fields lock / cvar',
+        'C19.R7': 'the open-file budget is counted in the unit the permits are spent in: one permit is taken per hashing task, and a task of a --transform run holds several descriptors (input file, pipes to the child, temporary copy, named pipe) - the number of permits is (RLIMIT_NOFILE - reserve) divided by at least the number of descriptor-opening call sites of one transform execution, with no floor above 1',
         'C19.R6': 'no call path from a region holding an RLIMIT_OPEN_FILES guard re-acquires that semaphore',
     },
     'not_decided': 'the thread interleavings themselves (a model checker or loom would explore them); fairness; std::sync::Condvar/Mutex internals',
@@ -64,6 +65,7 @@ def run(ctx):
     r4(ctx, lib)
     r5(ctx)
     r6(ctx)
+    r7(ctx)
 
 
 def r12(ctx, lib, b):
@@ -347,3 +349,59 @@ def r6(ctx):
         else:
             ctx.ok(rule, key, c.where(), 'no call in the %d blocks where the permit is held reaches another acquisition (%d indirect callees resolved)' % (len(held), n_ind))
         ctx.fn(b)
+
+
+def r7(ctx):
+    rule = 'C19.R7'
+    lib = ctx.lib
+    from ..callgraph import CallGraph
+    from ..analysis import slice_const_values, direct_def
+    from ..facts import const_int
+    init = [b for p, b in lib.bodies.items() if re.search(r'RLIMIT_OPEN_FILES as std::ops::Deref>::deref::__static_ref_initialize$', p)]
+    if not init:
+        ctx.missing(rule, 'initialiser of RLIMIT_OPEN_FILES')
+        return
+    ib = init[0]
+    new = ib.calls(r'semaphore::Semaphore::new$')
+    if not new:
+        ctx.missing(rule, 'Semaphore::new in the initialiser', ib.where())
+        return
+    # descriptors one transform execution opens: call sites reachable from Transform::run
+    cg = CallGraph([lib])
+    reach = cg.reachable(['transform::Transform::run'])
+    fd_sites = []
+    for k in reach:
+        b = cg.bodies[k]
+        if not b.file.endswith('transform.rs'):
+            continue
+        for c in b.calls(r'^std::fs::File::(open|create)$|^std::process::Stdio::piped$|^std::fs::copy$|mkfifo$|OpenOptions::open$'):
+            fd_sites.append(c)
+    need = len(fd_sites) + sum(1 for c in fd_sites if c.path.endswith('fs::copy'))     # copy holds two files
+    ctx.floor(rule, 'descriptor-opening call sites of one transform execution', len(fd_sites), 4, ib.where())
+    # the size expression: max(.. / k, floor)
+    sl = backslice(ib, [new[0].args[0]])
+    div = None
+    for blk in ib.blocks:
+        for st in blk['stmts']:
+            rv = st['rv']
+            if rv['k'] == 'bin' and rv.get('op') == 'Div' and st['p'][0] in sl.locals:
+                vals = slice_const_values(lib, backslice(ib, [rv['b']]))
+                for v in vals:
+                    m = re.search(r'(\d+)', v or '')
+                    if m:
+                        div = int(m.group(1))
+                it = backslice(ib, [rv['b']]).items
+                for i in it:
+                    cb = lib.body(i) or lib.body(i.replace('fclones::', ''))
+                    if cb is not None:
+                        for b2 in cb.blocks:
+                            for s2 in b2['stmts']:
+                                k = const_int(s2['rv'].get('op') or {}) if s2['rv']['k'] == 'use' else None
+                                if k:
+                                    div = k
+    floors = [const_int(a) for c in ib.calls(r'^std::cmp::max$|Ord::max$') for a in c.args if const_int(a) is not None]
+    ok = div is not None and div >= need and all(f <= 1 for f in floors)
+    ctx.check(ok, rule, 'rlimit::RLIMIT_OPEN_FILES|permits-per-task', new[0].where(), 'permits = (limit - reserve) / %s >= %d descriptors of one transform task; floor %s' % (div, need, floors),
+              'the semaphore has one permit per descriptor of the limit (divisor %s, floor %s) but a hashing task takes ONE permit and, with --transform, opens up to %d descriptors '
+              '(%s): with `ulimit -n 256 --threads 64 --transform "cp $IN $OUT"` most files fail with EMFILE and silently drop out of the groups; a floor above 1 exceeds small limits by itself' % (
+                  div, floors, need, ', '.join(sorted({c.path.rsplit('::', 1)[-1] for c in fd_sites}))))
